@@ -80,6 +80,29 @@ theorem f32_default_iff (b : Nat) (hex : F32.exact b = true) (hnz : b ≠ negZer
     have e2 : (b == 0) = false := by rw [beq_eq_false_iff_ne]; exact h
     rw [e1, e2]
 
+theorem F32.roundMag_le (m : Nat) (e : Int) : F32.roundMag m e ≤ F32.infBits := by
+  unfold F32.roundMag F32.clampInf
+  split
+  · simp [F32.infBits]
+  · split <;> omega
+
+theorem F32.mag_withSign (s : Bool) (y : Nat) (h : y ≤ F32.infBits) : F32.mag (F32.withSign s y) = y := by
+  simp only [F32.infBits] at h
+  cases s <;> simp only [F32.mag, F32.withSign, F32.p31] <;> simp <;> omega
+
+/-- narrowing a double that is no NaN never gives a NaN -/
+theorem F32.ofF64_not_nan (b : Nat) (h : F64.isNaN b = false) : F32.isNaN (F32.ofF64 b) = false := by
+  have key : ∀ s y, y ≤ F32.infBits → F32.isNaN (F32.withSign s y) = false := by
+    intro s y hy
+    simp only [F32.isNaN, F32.mag_withSign s y hy]
+    simp; exact hy
+  unfold F32.ofF64
+  rw [h]
+  simp only [Bool.false_eq_true, if_false]
+  split
+  · exact key _ _ (Nat.le_refl _)
+  · exact key _ _ (F32.roundMag_le _ _)
+
 /-! ### enum lookups -/
 
 theorem enum_ok_of_pool {pool : Pool} {e : Nat} {ed : EnumDesc} (hok : pool.Ok = true)
